@@ -340,7 +340,10 @@ fn main() {
                         std::thread::Builder::new()
                             .stack_size(16 << 20)
                             .spawn_scoped(scope, move || {
-                                s.gen(&name, cases, || exhaust_case(wire), |sc, cx| res(c12::exhaust::check(sc, cx), |p| s.inconclusive(format!("harness: {p}"))));
+                                let guard = ShrinkGuard::new(8, 45);
+                                s.gen(&name, cases, || exhaust_case(wire), |sc, cx| {
+                                    guard.run(s, cx, |cx| res(c12::exhaust::check(sc, cx), |p| s.inconclusive(format!("harness: {p}"))))
+                                });
                             })
                             .unwrap();
                     }
